@@ -29,6 +29,7 @@ import (
 	"os"
 	"path/filepath"
 	"runtime"
+	"runtime/debug"
 	"sort"
 	"strings"
 	"syscall"
@@ -37,6 +38,7 @@ import (
 	"time"
 
 	"github.com/tetratelabs/wazero"
+	"github.com/tetratelabs/wazero/api"
 	"github.com/tetratelabs/wazero/experimental/sock"
 
 	"verif/internal/evid"
@@ -55,7 +57,24 @@ func TestMain(m *testing.M) {
 	if err := syscall.Setrlimit(syscall.RLIMIT_AS, &lim); err != nil {
 		fmt.Fprintln(os.Stderr, "c15: cannot set RLIMIT_AS:", err)
 	}
+	// Every case allocates a fresh guest (memory, snapshot) on a tiny live heap, which would start
+	// a collection every few cases; with several shards running side by side the collector's
+	// workers then fight for the cores. Collect explicitly every gcEvery cases instead.
+	runtime.GOMAXPROCS(min(4, runtime.NumCPU()))
+	debug.SetGCPercent(-1)
 	evid.Main(m, "C15")
+}
+
+const gcEvery = 128
+
+var sinceGC int
+
+func maybeGC() {
+	sinceGC++
+	if sinceGC >= gcEvery {
+		sinceGC = 0
+		runtime.GC()
+	}
 }
 
 // ---------------------------------------------------------------------------------------
@@ -176,83 +195,167 @@ type world struct {
 	conns []net.Conn
 	size  uint32
 	open  []int32 // descriptors opened by the prefix and still believed open
+	fns   map[string]api.Function
 }
 
-func populate(dir string) error {
-	mk := func(err error) {
-		if err != nil {
-			panic(err)
-		}
-	}
-	defer func() { recover() }()
-	mk(os.MkdirAll(filepath.Join(dir, "d0", "sub"), 0o700))
-	mk(os.Mkdir(filepath.Join(dir, "big"), 0o700))
-	mk(os.WriteFile(filepath.Join(dir, "f0"), []byte(strings.Repeat("0123456789", 10)), 0o600))
-	mk(os.WriteFile(filepath.Join(dir, "f1"), nil, 0o600))
-	mk(os.WriteFile(filepath.Join(dir, "d0", "g"), []byte("g"), 0o600))
-	mk(os.Symlink("f0", filepath.Join(dir, "l0")))
-	for i := 0; i < 10; i++ {
-		n := fmt.Sprintf("e%02d", i)
+// The temp-dir tree every case starts from.
+type ent struct {
+	path string
+	kind byte // 'd' directory, 'f' file, 'l' symlink
+	data string
+}
+
+var treeSpec = func() []ent {
+	es := []ent{{"d0", 'd', ""}, {"d0/sub", 'd', ""}, {"big", 'd', ""},
+		{"f0", 'f', strings.Repeat("0123456789", 10)}, {"f1", 'f', ""}, {"d0/g", 'f', "g"}, {"l0", 'l', "f0"}}
+	for i := 0; i < 8; i++ {
+		n := fmt.Sprintf("big/e%02d", i)
 		if i == 4 {
 			n += strings.Repeat("x", 150) // an entry whose name does not fit small buffers
 		}
-		mk(os.WriteFile(filepath.Join(dir, "big", n), nil, 0o600))
+		es = append(es, ent{n, 'f', ""})
 	}
-	return nil
+	return es
+}()
+
+var fixedTime = time.Unix(1_700_000_000, 0)
+
+func kindOfMode(m os.FileMode) byte {
+	switch {
+	case m.IsDir():
+		return 'd'
+	case m&os.ModeSymlink != 0:
+		return 'l'
+	case m.IsRegular():
+		return 'f'
+	}
+	return '?'
 }
 
-// treeSig summarises the temp-dir tree (names, modes, sizes, mtimes, link target). A case that
-// leaves the signature unchanged did not modify the tree, which is then reused by the next case
-// (creating files is by far the most expensive part of a case); otherwise it is rebuilt.
-func treeSig(dir string) string {
-	var sb strings.Builder
-	for _, d := range []string{".", "d0", "d0/sub", "big"} {
-		es, err := os.ReadDir(filepath.Join(dir, d))
-		fmt.Fprintf(&sb, "%s:%v\n", d, err)
-		for _, e := range es {
-			fi, err := e.Info()
+// restore makes dir equal to treeSpec (creating it if needed) touching only what differs: creating
+// files is by far the most expensive part of a case on this machine, and most cases leave the tree
+// (nearly) untouched.
+func restore(dir string) {
+	os.MkdirAll(dir, 0o700)
+	want := map[string]ent{}
+	for _, e := range treeSpec {
+		want[e.path] = e
+	}
+	filepath.WalkDir(dir, func(p string, d os.DirEntry, err error) error {
+		if err != nil || p == dir {
+			return nil
+		}
+		rel, _ := filepath.Rel(dir, p)
+		e, ok := want[rel]
+		if ok && kindOfMode(d.Type()) == e.kind {
+			return nil
+		}
+		os.RemoveAll(p)
+		if d.IsDir() {
+			return filepath.SkipDir
+		}
+		return nil
+	})
+	for _, e := range treeSpec {
+		p := filepath.Join(dir, e.path)
+		fi, err := os.Lstat(p)
+		switch e.kind {
+		case 'd':
 			if err != nil {
-				fmt.Fprintf(&sb, " %s:%v\n", e.Name(), err)
-				continue
+				os.Mkdir(p, 0o700)
+			} else if fi.Mode().Perm() != 0o700 {
+				os.Chmod(p, 0o700)
 			}
-			sz := fi.Size()
-			if fi.IsDir() {
-				sz = 0
+		case 'f':
+			if err != nil || fi.Size() != int64(len(e.data)) || !fi.ModTime().Equal(fixedTime) || fi.Mode().Perm() != 0o600 {
+				os.Remove(p)
+				os.WriteFile(p, []byte(e.data), 0o600)
 			}
-			fmt.Fprintf(&sb, " %s %v %d %d\n", e.Name(), fi.Mode(), sz, fi.ModTime().UnixNano())
+		case 'l':
+			if t, err := os.Readlink(p); err != nil || t != e.data {
+				os.Remove(p)
+				os.Symlink(e.data, p)
+			}
 		}
 	}
-	l, err := os.Readlink(filepath.Join(dir, "l0"))
-	fmt.Fprintf(&sb, "l0->%s %v", l, err)
+	// modification times last: creating entries changes the time of their directory
+	for i := len(treeSpec); i >= 0; i-- {
+		p := dir
+		if i < len(treeSpec) {
+			if treeSpec[i].kind == 'l' {
+				continue
+			}
+			p = filepath.Join(dir, treeSpec[i].path)
+		}
+		if fi, err := os.Lstat(p); err == nil && !fi.ModTime().Equal(fixedTime) {
+			os.Chtimes(p, fixedTime, fixedTime)
+		}
+	}
+}
+
+// treeSig summarises the temp-dir tree (names, modes, sizes, mtimes, link target).
+func treeSig(dir string) string {
+	var sb strings.Builder
+	filepath.WalkDir(dir, func(p string, d os.DirEntry, err error) error {
+		rel, _ := filepath.Rel(dir, p)
+		if err != nil {
+			fmt.Fprintf(&sb, "%s: %v\n", rel, err)
+			return nil
+		}
+		fi, err := d.Info()
+		if err != nil {
+			fmt.Fprintf(&sb, "%s: %v\n", rel, err)
+			return nil
+		}
+		switch kindOfMode(fi.Mode()) {
+		case 'd':
+			fmt.Fprintf(&sb, "%s %v %d\n", rel, fi.Mode(), fi.ModTime().UnixNano())
+		case 'l':
+			l, _ := os.Readlink(p)
+			fmt.Fprintf(&sb, "%s -> %s\n", rel, l)
+		default:
+			fmt.Fprintf(&sb, "%s %v %d %d\n", rel, fi.Mode(), fi.Size(), fi.ModTime().UnixNano())
+		}
+		return nil
+	})
 	return sb.String()
 }
 
 var (
-	curDir string
-	curSig string
+	curDir   string
+	curSig   string
+	curClean bool
 )
 
-// acquireDir returns a pristine populated temp directory.
+// acquireDir returns the temp directory in its pristine state.
 func acquireDir() (string, error) {
-	if curDir != "" {
-		return curDir, nil
+	if curDir == "" {
+		curDir = filepath.Join(evid.WorkDir(), "tree")
+		os.RemoveAll(curDir)
+		restore(curDir)
+		curSig = treeSig(curDir)
+		curClean = true
 	}
-	caseSeq++
-	d := filepath.Join(evid.WorkDir(), fmt.Sprintf("t%d", caseSeq))
-	os.RemoveAll(d)
-	if err := os.Mkdir(d, 0o700); err != nil {
-		return "", err
+	if !curClean {
+		restore(curDir)
+		evid.Label("tmp-tree-repaired", 1)
+		if treeSig(curDir) != curSig { // could not be repaired in place: rebuild
+			evid.Label("tmp-tree-rebuilt", 1)
+			os.RemoveAll(curDir)
+			restore(curDir)
+			if s := treeSig(curDir); s != curSig {
+				return "", fmt.Errorf("temp tree cannot be restored:\n%s\nwant\n%s", s, curSig)
+			}
+		}
+		curClean = true
 	}
-	populate(d)
-	curDir, curSig = d, treeSig(d)
-	return d, nil
+	return curDir, nil
 }
 
-// releaseDir keeps the directory for the next case only if the case left it untouched.
+// releaseDir notes whether the case left the tree untouched.
 func releaseDir() {
-	if curDir != "" && treeSig(curDir) != curSig {
-		os.RemoveAll(curDir)
-		curDir = ""
+	if curDir != "" {
+		curClean = treeSig(curDir) == curSig
 	}
 }
 
@@ -276,7 +379,7 @@ func setup(c *Case) (*world, error) {
 	if err != nil {
 		return nil, err
 	}
-	w := &world{c: c, dir: dir}
+	w := &world{c: c, dir: dir, fns: map[string]api.Function{}}
 	var lastErr error
 	for attempt := 0; attempt < 5; attempt++ {
 		mc := wazero.NewModuleConfig().WithName("").WithArgs(guestArgs...).
@@ -311,6 +414,7 @@ func setup(c *Case) (*world, error) {
 }
 
 func (w *world) close() {
+	defer maybeGC()
 	if w.p != nil {
 		w.p.Mod.Close(bg)
 	}
@@ -320,8 +424,22 @@ func (w *world) close() {
 	releaseDir()
 }
 
+// call invokes a WASI function through its guest wrapper (api.Function objects are cached per
+// world: creating one allocates a call engine).
 func (w *world) call(name string, args ...uint64) (uint32, wz.Outcome) {
-	return w.p.Call(bg, name, args...)
+	f := w.fns[name]
+	if f == nil {
+		f = w.p.Mod.ExportedFunction(name)
+		if f == nil || len(args) != len(sigs[name].Params) {
+			return 0, wz.Outcome{Kind: wz.KOther, Detail: "harness: bad call of " + name}
+		}
+		w.fns[name] = f
+	}
+	res, out := wz.SafeCall(bg, f, args...)
+	if out.Kind == wz.KOK && len(res) > 0 {
+		return uint32(res[0]), out
+	}
+	return 0, out
 }
 
 func (w *world) mem() []byte {
